@@ -1275,6 +1275,7 @@ pub fn mutate(
         let bytes: Option<(Bytes, String)> = match tag.kind {
             _ if spec.op == 2000 => overflow_attack(data, &mut rng),
             _ if spec.op == 2001 => cbmt_attack(data, &mut rng),
+            _ if spec.op == 2004 => same_height_twin(sim, data, &mut rng),
             Kind::SendLastStateProof => packed::LightClientMessageReader::from_compatible_slice(data)
                 .ok()
                 .and_then(|m| match m.to_enum() {
@@ -1397,6 +1398,153 @@ fn proof_from_another_point_of_view(
             }
             hashes.extend(r.missing_tx_hashes().iter().map(|h| h.to_entity()));
             txs_pov(world, view, last_hash, hashes, r.count_extra_fields() > 0)
+        }
+        _ => None,
+    }
+}
+
+/// The honest blocks / transactions proof plus a *second* header at the number of a delivered
+/// one, for something the honest answer reports missing: a block / transaction of a side branch
+/// at the same height (genuine header, genuine Merkle proof), or - for a transaction whose body
+/// is known - a made-up header that copies the delivered one and commits to that transaction
+/// alone. The MMR proof stays the honest one (it proves the delivered header of that number).
+fn same_height_twin(sim: &Sim, data: &Bytes, rng: &mut Rng) -> Option<(Bytes, String)> {
+    use ckb_types::utilities::{merkle_root, CBMT};
+    let world = &sim.world;
+    let m = packed::LightClientMessageReader::from_compatible_slice(data).ok()?;
+    let by_hash = |h: &Byte32| world.blocks.iter().find(|b| b.hash() == *h);
+    match m.to_enum() {
+        packed::LightClientMessageUnionReader::SendBlocksProof(r) => {
+            let v1 = r.count_extra_fields() > 0;
+            let msg = r.to_entity();
+            let mut headers: Vec<packed::Header> = msg.headers().into_iter().collect();
+            let numbers: Vec<u64> = headers.iter().map(|h| h.raw().number().unpack()).collect();
+            let mut missing: Vec<Byte32> = msg.missing_block_hashes().into_iter().collect();
+            let pos = missing.iter().position(|h| by_hash(h).map(|b| numbers.contains(&b.number())).unwrap_or(false))?;
+            let twin = by_hash(&missing[pos])?;
+            missing.remove(pos);
+            headers.push(twin.view.data().header());
+            let note = format!("header of side-branch block #{} added next to the proven header of that number", twin.number());
+            if v1 {
+                let m1 = packed::SendBlocksProofV1Reader::from_compatible_slice(r.as_slice()).ok()?.to_entity();
+                let mut uncles: Vec<Byte32> = m1.blocks_uncles_hash().into_iter().collect();
+                let mut exts: Vec<packed::BytesOpt> = m1.blocks_extension().into_iter().collect();
+                uncles.push(twin.view.calc_uncles_hash());
+                exts.push(packed::BytesOpt::new_builder().set(twin.view.extension()).build());
+                let out = m1
+                    .as_builder()
+                    .headers(packed::HeaderVec::new_builder().set(headers).build())
+                    .missing_block_hashes(missing.pack())
+                    .blocks_uncles_hash(uncles.pack())
+                    .blocks_extension(packed::BytesOptVec::new_builder().set(exts).build())
+                    .build();
+                Some((lc_msg(out).as_bytes(), note))
+            } else {
+                let out = msg
+                    .as_builder()
+                    .headers(packed::HeaderVec::new_builder().set(headers).build())
+                    .missing_block_hashes(missing.pack())
+                    .build();
+                Some((lc_msg(out).as_bytes(), note))
+            }
+        }
+        packed::LightClientMessageUnionReader::SendTransactionsProof(r) => {
+            let v1 = r.count_extra_fields() > 0;
+            let msg = r.to_entity();
+            let mut fbs: Vec<packed::FilteredBlock> = msg.filtered_blocks().into_iter().collect();
+            if fbs.is_empty() {
+                return None;
+            }
+            let numbers: Vec<u64> = fbs.iter().map(|f| f.header().raw().number().unpack()).collect();
+            let mut missing: Vec<Byte32> = msg.missing_tx_hashes().into_iter().collect();
+            // (position in `missing`, block id, tx index)
+            let known: Vec<(usize, usize, u32)> = missing
+                .iter()
+                .enumerate()
+                .filter_map(|(i, h)| world.tx_locs.get(h).and_then(|l| l.first()).map(|(id, idx)| (i, *id, *idx)))
+                .collect();
+            if known.is_empty() {
+                return None;
+            }
+            let genuine = known.iter().find(|(_, id, _)| numbers.contains(&world.blocks[*id].number())).cloned();
+            let (twin, uncles_hash, ext, note, gone) = match genuine {
+                Some((i, id, idx)) => {
+                    let blk = &world.blocks[id].view;
+                    let all: Vec<Byte32> = blk.transactions().iter().map(|t| t.hash()).collect();
+                    let proof = CBMT::build_merkle_proof(&all, &[idx])?;
+                    let fb = packed::FilteredBlock::new_builder()
+                        .header(blk.data().header())
+                        .witnesses_root(blk.calc_witnesses_root())
+                        .transactions(vec![blk.transactions()[idx as usize].data()].pack())
+                        .proof(
+                            packed::MerkleProof::new_builder()
+                                .indices(proof.indices().to_owned().pack())
+                                .lemmas(proof.lemmas().to_owned().pack())
+                                .build(),
+                        )
+                        .build();
+                    (
+                        fb,
+                        blk.calc_uncles_hash(),
+                        packed::BytesOpt::new_builder().set(blk.extension()).build(),
+                        format!("filtered block of side-branch block #{} added next to the proven block of that number", blk.number()),
+                        i,
+                    )
+                }
+                None => {
+                    // a made-up header at the number of a delivered block, committing to the
+                    // transaction alone
+                    let (i, id, idx) = known[rng.usize_below(known.len())];
+                    let tx = world.blocks[id].view.transactions()[idx as usize].clone();
+                    let bi = rng.usize_below(fbs.len());
+                    let real = fbs[bi].header();
+                    let real_block = world.blocks.iter().find(|b| b.hash() == real.calc_header_hash())?;
+                    let witnesses_root = merkle_root(&[tx.witness_hash()]);
+                    let root = merkle_root(&[merkle_root(&[tx.hash()]), witnesses_root.clone()]);
+                    let raw = real.raw().as_builder().transactions_root(root).build();
+                    let header = crate::chain::mine_header(world.params.pow, real.as_builder().raw(raw).build());
+                    let proof = CBMT::build_merkle_proof(&[tx.hash()], &[0])?;
+                    let fb = packed::FilteredBlock::new_builder()
+                        .header(header)
+                        .witnesses_root(witnesses_root)
+                        .transactions(vec![tx.data()].pack())
+                        .proof(
+                            packed::MerkleProof::new_builder()
+                                .indices(proof.indices().to_owned().pack())
+                                .lemmas(proof.lemmas().to_owned().pack())
+                                .build(),
+                        )
+                        .build();
+                    (
+                        fb,
+                        real_block.view.calc_uncles_hash(),
+                        packed::BytesOpt::new_builder().set(real_block.view.extension()).build(),
+                        format!("made-up header at the number of delivered block {} committing to a transaction reported missing", bi),
+                        i,
+                    )
+                }
+            };
+            missing.remove(gone);
+            fbs.push(twin);
+            let items = packed::FilteredBlockVec::new_builder().set(fbs).build();
+            if v1 {
+                let m1 = packed::SendTransactionsProofV1Reader::from_compatible_slice(r.as_slice()).ok()?.to_entity();
+                let mut uncles: Vec<Byte32> = m1.blocks_uncles_hash().into_iter().collect();
+                let mut exts: Vec<packed::BytesOpt> = m1.blocks_extension().into_iter().collect();
+                uncles.push(uncles_hash);
+                exts.push(ext);
+                let out = m1
+                    .as_builder()
+                    .filtered_blocks(items)
+                    .missing_tx_hashes(missing.pack())
+                    .blocks_uncles_hash(uncles.pack())
+                    .blocks_extension(packed::BytesOptVec::new_builder().set(exts).build())
+                    .build();
+                Some((lc_msg(out).as_bytes(), note))
+            } else {
+                let out = msg.as_builder().filtered_blocks(items).missing_tx_hashes(missing.pack()).build();
+                Some((lc_msg(out).as_bytes(), note))
+            }
         }
         _ => None,
     }
